@@ -1,6 +1,6 @@
 PROPS["C12"] = prop(
     "exploration",
-    "rapid-generated secrets, exhaustive single-bit mutations and attempt histories against reference models "
+    "rapid-generated secrets, exhaustive single-bit mutations and attempt histories against reference models ; round 7 (TestC12Basic): stored password hashes damaged behind the authenticator's back - nothing authenticates"
     "(issued-token table, HMAC reference, attempt counter, lower-cased login map); thorough tier: the same generators and oracles also run under Go's native coverage-guided fuzzer (rapid.MakeFuzz, 60 s per target, all cores); concurrent logins: 2-8 goroutines hammer ONE token authenticator for a bounded number of calls with a generated mix of genuine tokens, forgeries carrying a genuine token's signature and issue-then-verify, judged per call by the issued-token table, once in the normal build and once under the Go race detector (a race report kills the worker and counts as a violation)",
     "a case is non-trivial when it has >=1 accepted secret and >=1 refused secret derived from the accepted one "
     "(token: bit flips / truncations / foreign verifier / expiry of an accepted token; api key: mutations of an accepted key; "
